@@ -35,7 +35,7 @@ func runC09(c *Ctx) {
 	if m.Server == nil || len(m.problems) > 0 {
 		return
 	}
-	ctor := w.Func(shimPkg, "newShimAgent")
+	ctor := shimConstructor(w, m)
 	// ---- R1 ----
 	// single writer of the mode field: the constructor, storing its bool parameter
 	nW := 0
@@ -420,6 +420,21 @@ func signTable(c *Ctx, m *shimModel) {
 		tag += ")"
 		return absVal{K: avTuple, Tuple: []absVal{{K: avUnknown, Tag: tag}, {K: avUnknown, Tag: tag}}}
 	})
+	// the key-not-found sentinel: the package error variable AddHardCert returns when no listed key matches
+	notFoundSentinel := ""
+	if ah := m.Methods["AddHardCert"]; ah != nil {
+		for _, r := range liveReturns(ah) {
+			for _, lf := range w.Leaves(r.Results[0], r) {
+				if ex := w.Expr(lf.Val); strings.HasPrefix(ex, "global:"+RepoMod+"/"+shimPkg+".") {
+					if _, known := m.lockedKnown(ah, r.Block()); known {
+						if v, _ := m.lockedKnown(ah, r.Block()); !v {
+							notFoundSentinel = ex
+						}
+					}
+				}
+			}
+		}
+	}
 	memAtom := `s.` + m.fCerts + `["H"].ok`
 	leaves, und := w.DecisionTable(fn, []absVal{{K: avObject, Obj: "s"}, {K: avObject, Obj: "key"}, {K: avNonNil, Tag: "data"}, {K: avAtom, Name: "?flags"}}, spec)
 	for _, u := range und {
@@ -461,7 +476,7 @@ func signTable(c *Ctx, m *shimModel) {
 					g = "memory"
 				case strings.HasPrefix(r0.Tag, "agent.SignWithFlags(p1,p2,p3)"):
 					g = "forward"
-				case r1.K == avObject && strings.HasSuffix(r1.Obj, "errAgentNotFoundKey"):
+				case r1.K == avObject && strings.HasPrefix(r1.Obj, "global:") && notFoundSentinel != "" && strings.HasSuffix(notFoundSentinel, "."+strings.TrimPrefix(r1.Obj, "global:")):
 					g = "refuse"
 				case r0.K == avNil && (r1.K == avNonNil || r1.K == avObject):
 					g = "error"
